@@ -6,7 +6,6 @@ from common import *
 from symgo import pgpmodel
 
 ID = 'C11'
-THOROUGH_IS_QUICK = True     # the deeper bounds below were not run clean on the unchanged tree within the session (9-minute cap); the thorough command runs the quick bounds
 HDR_LEN_PROBE = b'-----BEGIN PGP SIGNED MESSAGE-----\nHash: SHA256\n\n'
 PKG = 'control'
 C = MOD + '/control.'
